@@ -885,7 +885,13 @@ class Consumer(object):
         if self._msg_block_d:
             # We are still working through the last block of messages...
             # We have to wait until it's done, then process this response
-            self._msg_block_d.addCallback(lambda _: self._handle_fetch_response(responses))
+            def _discard_response(failure):
+                # stop() cancelled the block: this response is dropped, so
+                # its (already fired) request deferred must be forgotten too
+                self._request_d = None
+                return failure
+
+            self._msg_block_d.addCallbacks(lambda _: self._handle_fetch_response(responses), _discard_response)
             return
 
         # No ongoing processing, great, let's get some started.
